@@ -76,6 +76,8 @@ struct OpRec {
   std::vector<std::pair<bool, std::string>> vals;          // per key: (found, value)
   std::vector<std::pair<std::string, std::string>> scan;   // scan result
   uint64_t inv = 0, ret = 0;
+  uint64_t view_complete = 0;           // snaphold: stamp taken when the first round of reads was done
+  std::string reread_msg;               // snaphold: a re-read through the same snapshot differed
   bool done = false;
 };
 
@@ -127,6 +129,37 @@ static void exec_op(Shared *sh, OpRec &o) {
       ldb_release(db, s);
       break;
     }
+    case O_SNAPHOLD: {
+      // a snapshot held across a flush and a merging compaction (while other threads hold theirs and keep writing), read
+      // before and after: the view is judged like snapget's, and the second round of reads must repeat the first
+      const ldb_snapshot_t *s = ldb_snapshot(db);
+      ldb_readopt_t ro = *ldb_readopt_default;
+      ro.snapshot = s;
+      for (auto &key : o.keys) {
+        ldb_slice_t k = slice_of(key), v;
+        int r = ldb_get(db, &k, &v, &ro);
+        if (r == LDB_OK) { o.vals.push_back({true, str_of(v)}); ldb_free(v.data); }
+        else { o.vals.push_back({false, ""}); if (r != LDB_NOTFOUND) o.rc = r; }
+      }
+      o.view_complete = ++g_stamp;
+      ldb_test_compact_memtable(db);
+      ldb_test_compact_range(db, 0, nullptr, nullptr);
+      if (o.level) ldb_test_compact_range(db, 1, nullptr, nullptr);
+      for (size_t i = 0; i < o.keys.size() && o.reread_msg.empty(); i++) {
+        ldb_slice_t k = slice_of(o.keys[i]), v;
+        int r = ldb_get(db, &k, &v, &ro);
+        bool found = (r == LDB_OK);
+        std::string val = found ? str_of(v) : std::string();
+        if (found) ldb_free(v.data);
+        if (r != LDB_OK && r != LDB_NOTFOUND) o.reread_msg = sfmt("re-read of %s through the held snapshot returns status %d", lit_token(o.keys[i]).c_str(), r);
+        else if (found != o.vals[i].first || val != o.vals[i].second)
+          o.reread_msg = sfmt("re-read of %s through the same snapshot changed after a compaction: was %s, now %s", lit_token(o.keys[i]).c_str(),
+                              o.vals[i].first ? lit_token(o.vals[i].second).substr(0, 40).c_str() : "<not found>", found ? lit_token(val).substr(0, 40).c_str() : "<not found>");
+      }
+      ldb_release(db, s);
+      o.kind = O_SNAPGET;
+      break;
+    }
     case O_SCAN: {
       ldb_iter_t *it = ldb_iterator(db, nullptr);
       for (ldb_iter_first(it); ldb_iter_valid(it); ldb_iter_next(it)) o.scan.push_back({str_of(ldb_iter_key(it)), str_of(ldb_iter_value(it))});
@@ -147,7 +180,7 @@ static void exec_op(Shared *sh, OpRec &o) {
     case O_APPROX: { ldb_range_t r; std::string a = "a", z = "z"; r.start = slice_of(a); r.limit = slice_of(z); ldb_uint64_t sz; ldb_approximate_sizes(db, &r, 1, &sz); break; }
     default: break;
   }
-  o.ret = ++g_stamp;
+  o.ret = o.view_complete ? o.view_complete : ++g_stamp;
   o.done = true;
   sched_call_end();
 }
@@ -179,6 +212,7 @@ static bool parse_thread_op(const Op &op, OpRec *o) {
     if (o->ups.empty()) return false;
   }
   else if (n == "get") { std::string k; if (!key(2, k)) return false; o->kind = O_GET; o->keys.push_back(k); }
+  else if (n == "snaphold") { o->kind = O_SNAPHOLD; for (size_t i = 2; i < op.args.size(); i++) { std::string k; if (expand_bytes(op.args[i], k)) o->keys.push_back(k); } if (o->keys.empty()) return false; o->level = (int)(o->keys.size() % 2); }
   else if (n == "snapget") { o->kind = O_SNAPGET; for (size_t i = 2; i < op.args.size(); i++) { std::string k; if (expand_bytes(op.args[i], k)) o->keys.push_back(k); } if (o->keys.empty()) return false; }
   else if (n == "scan") o->kind = O_SCAN;
   else if (n == "flush") o->kind = O_FLUSH;
@@ -349,6 +383,8 @@ class ConcRunner {
     for (auto &p : targs) tids.push_back(sched_spawn(thread_main, &p.second));
     for (int t : tids) sched_join(t);
     for (auto &o : ops) if (!o.done) VF_FAIL("C09", "operation `%s` never returned", o.text.c_str());
+    for (auto &o : ops) if (!o.reread_msg.empty()) VF_FAIL("C08", "`%s`: %s", o.text.c_str(), o.reread_msg.c_str());
+    for (auto &o : ops) if (o.view_complete) rep->count("class.snapshot_held_across_compaction");
     // a backup taken concurrently with writers is an independently openable database whose contents are one point in
     // the batch order: judged below exactly like a scan whose interval is the ldb_backup call
     for (auto &o : ops) {
